@@ -2,7 +2,7 @@
    input, what the implementation did (error | field dump + re-encoding); [c18_ok] recomputes
    the same observation from the model and compares (evaluated with vm_compute). *)
 From Coq Require Uint63.
-From DtlsV Require Import Lib.Bytes Gen.Generated Codec.C18Comb Codec.C18Rec Codec.C18Hs.
+From DtlsV Require Import Lib.Bytes Gen.Generated Codec.C18Comb Codec.C18Rec Codec.C18Hs Codec.C18Rec13.
 Open Scope N_scope.
 
 (* Byte strings are written by the driver as (length, 7-byte big-endian chunks as primitive
@@ -27,6 +27,16 @@ Definition obs : Type := option (list N * option bytes).
 (* (codec id, context, input, observation on the implementation with the dump serialised) *)
 Definition wobs : Type := option (bytes * option bytes).
 Definition c18_case : Type := (N * list N * bytes * wobs)%type.
+(* flat constructor used by the driver (arguments of concrete types elaborate ~6x faster than
+   nested pairs/options): r = 0 rejected, 1 accepted but Marshal failed, 2 accepted + re-encoding *)
+Definition K (id : N) (ctx : list N) (n : nat) (i : list Uint63.int) (r : nat)
+  (dn : nat) (d : list Uint63.int) (en : nat) (e : list Uint63.int) : c18_case :=
+  (id, ctx, B n i,
+   match r with
+   | O => None
+   | 1%nat => Some (B dn d, None)
+   | _ => Some (B dn d, Some (B en e))
+   end).
 Definition obs_ser (o : obs) : wobs :=
   match o with Some (d, r) => Some (dump_ser d, r) | None => None end.
 
@@ -96,6 +106,28 @@ Definition run_record (cid : nat) (b : bytes) : obs :=
   | None => None
   end.
 
+Definition b2n (b : bool) : N := if b then 1 else 0.
+Definition dump_uhdr (h : uhdr) : list N :=
+  dump_bytes (uh_cid h) ++ [uh_seq h; b2n (uh_sbit h); uh_len h; b2n (uh_lbit h); uh_elow h].
+
+Definition run_crec13 (cid : nat) (b : bytes) : obs :=
+  match crec13_unmarshal cid b with
+  | Some x => Some (dump_uhdr (fst x) ++ dump_bytes (snd x), crec13_marshal x)
+  | None => None
+  end.
+
+Definition run_prec13 (b : bytes) : obs :=
+  match prec13_unmarshal (w_hs 0) b with
+  | Some x => Some (dump_hdr (fst x) ++ dump_content (snd x), prec13_marshal (w_hs 0) x)
+  | None => None
+  end.
+
+Definition run_unpack13 (cid : nat) (req en : bool) (b : bytes) : obs :=
+  match unpack_datagram13 cid req en b with
+  | Some (rs, _) => Some (dump_list (fun r => [len r]) rs, Some (concat rs))
+  | None => None
+  end.
+
 (* None: the input is outside what the model covers (skipped and counted by the driver) *)
 Definition run (id : N) (ctx : list N) (b : bytes) : option obs :=
   match id with
@@ -117,6 +149,10 @@ Definition run (id : N) (ctx : list N) (b : bytes) : option obs :=
   | 15 => Some (run_w w_certificate (fun x => dump_msg (MCertificate x)) b)
   | 16 => Some (run_w w_new_cid (fun x => dump_msg (MNewConnectionID x)) b)
   | 17 => Some (run_w w_key_update (fun x => [x]) b)
+  | 20 => Some (run_w (w_uhdr (N.to_nat (ctxn ctx 0))) dump_uhdr b)
+  | 21 => Some (run_crec13 (N.to_nat (ctxn ctx 0)) b)
+  | 22 => if (hd0 b =? 22) && negb (hs_in_model (skipn 13 b)) then None else Some (run_prec13 b)
+  | 23 => Some (run_unpack13 (N.to_nat (ctxn ctx 0)) (ctxn ctx 1 =? 1) (ctxn ctx 2 =? 1) b)
   | _ => None
   end.
 
